@@ -1,5 +1,5 @@
 (* K-ignore -- model of the opt-out comment recognisers:
-     core.has_ignore_comment (pyrefact/core.py, after repairs 8814bf1 49868ec c213b2e): per physical line
+     core.has_ignore_comment (pyrefact/core.py, after repairs a37c022 8992e08 776bcb9): per physical line
      (core.split_lines: \n, \r\n, \r only), the regex
          #\s*pyrefact\s*:\s*(skip_file|ignore)   searched in the line and confirmed by a comment token of
      the tokenizer on that line, and the line touched by the range (overlap; insertion points);
@@ -42,10 +42,10 @@ Fixpoint split_at (brk : N -> bool) (cur : text) (s : text) : list text :=
   end.
 
 (* source.splitlines(keepends=True): what has_ignore_comment, _do_rewrite, _insert_nodes,
-   _fix_undefined_variables and indentation_level used before repairs 8814bf1..cf76c09 *)
+   _fix_undefined_variables and indentation_level used before repairs a37c022..bb9c8e5 *)
 Definition str_splitlines (s : text) : list text := split_at is_break [] s.
 
-(* core.split_lines (pyrefact/core.py, after repair 8814bf1): re.findall of
+(* core.split_lines (pyrefact/core.py, after repair a37c022): re.findall of
        [^\r\n]*(?:\r\n|\r|\n)|[^\r\n]+
    = the physical lines of the Python tokenizer (language reference 2.1.2): a line ends at \n, \r\n
    or \r and nowhere else. *)
@@ -108,7 +108,7 @@ Fixpoint line_ranges (pos : Z) (ls : list text) : list (range * text) :=
   | l :: tl => let e := (pos + Z.of_nat (length l))%Z in ((pos, e), l) :: line_ranges e tl
   end.
 
-(* The tokenizer's verdict (core._ignore_comment_linenos, after repair c213b2e): the zero-based numbers
+(* The tokenizer's verdict (core._ignore_comment_linenos, after repair 776bcb9): the zero-based numbers
    of the physical lines that carry a COMMENT token matching the regex; None when CPython's tokenize
    raises on the source (then every line whose text matches counts).  The tokenizer itself is not
    modelled: it is an input of the model, supplied by CPython in the correspondence. *)
@@ -122,7 +122,7 @@ Definition ignore_entries (src : text) (coms : option (list nat)) : list (range 
                   (combine (seq 0 (length tbl)) tbl)).
 
 (* does the rewrite range r touch the line [ls, le)?  A non-empty range: Range.overlaps.  An empty
-   range (an insertion, after repair 49868ec): anywhere from the first column of the line up to its
+   range (an insertion, after repair 8992e08): anywhere from the first column of the line up to its
    terminator; at the very end of an unterminated last line too. *)
 Definition touches (r : range) (e : range * text) : bool :=
   let '(ls, le) := fst e in
